@@ -50,6 +50,18 @@ def resolve_shared(P, f, expr, at_node, depth=0):
     m = f.module
     if isinstance(expr, ast.Name):
         name = expr.id
+        if name in f.params and not isinstance(f.node, ast.Lambda):
+            # a parameter whose default is a mutable object built once, at definition time: every call that omits the argument works on that one object
+            a_ = f.node.args
+            pos_ = a_.posonlyargs + a_.args
+            dmap_ = dict(zip([x.arg for x in pos_[len(pos_) - len(a_.defaults):]], a_.defaults))
+            dmap_.update({x.arg: d for x, d in zip(a_.kwonlyargs, a_.kw_defaults) if d is not None})
+            dv_ = dmap_.get(name)
+            if dv_ is not None and (isinstance(dv_, (ast.List, ast.Dict, ast.Set, ast.ListComp, ast.DictComp, ast.SetComp)) or
+                                    (isinstance(dv_, ast.Call) and (dotted(dv_.func) or '') in MUTABLE_CTORS)):
+                ds_ = f.rd.at(at_node, name)
+                if ds_ and all(d.kind == 'param' for d in ds_):
+                    return f'default-arg:{f.fq}.{name}'
         if f.rd.is_local(name) or name in f.params:
             if depth > 3:
                 return None
@@ -172,6 +184,16 @@ def shared_writes(P, funcs=None):
                         if r and not r.startswith(('class:', 'module:')):
                             out.append(dict(func=f, node=n, target=r,
                                             kind='slice-assign' if isinstance(t.slice, ast.Slice) else 'item-assign'))
+                    elif isinstance(t, ast.Attribute) and isinstance(t.value, ast.Name) and t.value.id == 'cls' and f.params[:1] == ['cls'] and f.owner_cls is not None \
+                            and any(isinstance(d_, ast.Name) and d_.id == 'classmethod' for d_ in f.node.decorator_list) \
+                            and all(d_.kind == 'param' for d_ in f.rd.at(cfgnode(), 'cls')):
+                        # `cls.x = ..` in a classmethod: an attribute of the class object, one for every instance and thread
+                        out.append(dict(func=f, node=n, target=f'classattr:{f.owner_cls.fq}.{t.attr}', kind='attr-assign'))
+                    elif isinstance(t, ast.Attribute) and f.owner_cls is not None and (
+                            (isinstance(t.value, ast.Attribute) and t.value.attr == '__class__' and isinstance(t.value.value, ast.Name) and t.value.value.id == 'self') or
+                            (isinstance(t.value, ast.Call) and dotted(t.value.func) == 'type' and len(t.value.args) == 1 and dotted(t.value.args[0]) == 'self')):
+                        # `self.__class__.x = ..` / `type(self).x = ..`
+                        out.append(dict(func=f, node=n, target=f'classattr:{f.owner_cls.fq}.{t.attr}', kind='attr-assign'))
                     elif isinstance(t, ast.Attribute):
                         r = resolve_shared(P, f, t.value, cfgnode()) if isinstance(t.value, (ast.Name, ast.Attribute)) else None
                         if r and r.startswith(('class:', 'module:')):
